@@ -421,7 +421,7 @@ func Spec() *core.Spec {
 			"(directly in its payload, in a batch of three at each position, CryptographicParameters as attribute value / inside KeyWrappingData of an object / inside a KeyWrappingSpecification, headers with and without authentication), " +
 			"plus seeded random messages whose gated fields are populated regardless of version; each encoded in binary, XML and JSON and compared with the reference layout at that version (text documents read by the harness's own readers), " +
 			"and the full 1.4 encoding with rewritten header version decoded; plus a diff of the version= annotations present in the tree against the pin. " +
-			"distinct = distinct expected layout shapes",
+			"sequences of 2-4 messages of different versions through one encoder (appended, or cleared in between; three encodings); distinct = distinct expected layout shapes",
 		Assumptions: []string{"/verif/ref/version_gates.json is the pinned reading of KMIP 1.0-1.4 for the 61 fields; a field gated by the specification but unknown to both the library and the pin is invisible"},
 		Required:    []string{"messages", "decode_side_checks", "text_encoding_checks", "matrix.populated.present", "matrix.populated.absent", "matrix.unpopulated", "annotations_compared", "sequence_messages", "sequence_messages.appended"},
 		Families: []core.Family{
